@@ -102,6 +102,15 @@ theorem C19_seqno_single_atomic_step :
     Gen.counterBodies = [("Memberlist.nextIncarnation", ["return m.incarnation.Add(1)"]),
       ("Memberlist.nextSeqNo", ["return atomic.AddUint32(&m.sequenceNum, 1)"])] := by decide
 
+/-- **answering a number consumes its record in the same critical section** (regenerated fact): the handler for an
+acknowledgement looks the record up and deletes it before it releases the table's lock, so a duplicate or
+late acknowledgement for the same number finds nothing - whatever the first one's handler is doing; a nack
+only looks the record up. -/
+theorem C19_ack_lookup_and_discard_atomic :
+    Gen.criticalSections =
+      [("Memberlist.invokeAckHandler", ["ah, ok := m.ackHandlers[ack.SeqNo]", "delete(m.ackHandlers, ack.SeqNo)"]),
+       ("Memberlist.invokeNackHandler", ["ah, ok := m.ackHandlers[nack.SeqNo]"])] := by decide
+
 /-- **Ping counts only its own acknowledgement**: foreign acknowledgements, late ones, and the expiry of the
 pending record (which happens first when the probe interval is below the probe timeout) never make a
 `Ping` succeed. -/
